@@ -167,7 +167,7 @@ func (c *Ctx) Expired() bool {
 		return true
 	}
 	c.tick++
-	if c.tick&0x3ff != 0 {
+	if c.tick&0x3f != 0 {
 		return false
 	}
 	if !c.Deadline.IsZero() && time.Now().After(c.Deadline) {
